@@ -164,3 +164,42 @@ def dm_zero_contents(rng, per=2):
             if d:
                 out.append(bytes(x - 1 for x in d))
     return out
+
+
+def scale_one_data(gf, rng, ndata, k, lo=0, hi=255, which=-1):
+    """ndata symbols in lo..hi such that the division step for data position `which` (default: the last) has scale
+    exactly 1 (the running remainder's leading coefficient there is 1): in-place / aliasing shortcuts for
+    'multiply by 1' are exercised only by such blocks (1 in 255 of random blocks)"""
+    g = gf.gen(k)
+    pos = which % ndata
+    for _ in range(400):
+        data = [rng.randrange(lo, hi + 1) for _ in range(ndata)]
+        rem = [0] * k
+        ok = False
+        for i, d in enumerate(data):
+            if i == pos:
+                want = 1 ^ rem[0]
+                if not (lo <= want <= hi):
+                    break
+                data[i] = d = want
+                ok = True
+            fb = d ^ rem[0]
+            rem = rem[1:] + [0]
+            if fb:
+                for j in range(k):
+                    rem[j] ^= gf.mul(g[j + 1], fb)
+        if ok:
+            return data
+    return None
+
+
+# DataMatrix sizes whose blocks have 68 check codewords (the longest generator of the library's shared encoders):
+# 48x48 = 174 data codewords in one block
+def dm_scale_one_contents(rng, n=4):
+    out = []
+    for (nd, k) in ((174, 68), (144, 56), (114, 48), (44, 28), (5, 7)):
+        for _ in range(n):
+            d = scale_one_data(DM, rng, nd, k, lo=66, hi=123)
+            if d:
+                out.append(bytes(x - 1 for x in d))
+    return out
